@@ -192,10 +192,10 @@ def valid_c(env, order):
     return True
 
 
-def leaf_checks(env, rec, expr):
+def leaf_checks(env, rec, expr, skip=frozenset()):
     """Rust boolean expressions, one per scalar leaf of the record (through nested records and arrays), true iff that leaf is zero"""
     out = []
-    if rec.opaque or rec.blocklisted or rec.packed:
+    if rec.opaque or rec.blocklisted or rec.packed or rec.name in skip:
         return out      # (members of a packed record cannot be borrowed; the text check of write_bytes covers it)
 
     def leaf(t, e):
@@ -207,9 +207,9 @@ def leaf_checks(env, rec, expr):
                 leaf(t.elem, "%s[%d]" % (e, i))
         elif k == "TRec":
             sub = env[t.rec]
-            if sub.union or sub.opaque or sub.blocklisted or sub.packed:
+            if sub.union or sub.opaque or sub.blocklisted or sub.packed or sub.name in skip:
                 return
-            out.extend(leaf_checks(env, sub, e))
+            out.extend(leaf_checks(env, sub, e, skip))
         elif k == "TInt":
             out.append("(%s as i128) == 0" % e)
         elif k == "TEnum":
@@ -402,9 +402,12 @@ def run(ck):
                 if env[n].blocklisted:
                     dcode, mcode = [], []
                     ds, man = set(), set()
-                if env[n].opaque and ds is not None:
+                def has_opaque(nm, seen=()):
+                    rc_ = env[nm]
+                    return rc_.opaque or any(base_of(t).kind == "TRec" and base_of(t).rec not in seen and has_opaque(base_of(t).rec, seen + (nm,)) for _, t, _ in rc_.fields)
+                if has_opaque(n) and ds is not None:
                     # whether an opaque composite "has a float" depends on the order in which the HasFloat analysis meets its members
-                    # (its fields are not traced): Eq / Ord on an opaque blob are harmless either way and are not compared
+                    # (its fields are not traced): Eq / Ord on an opaque blob — and on what contains it — are harmless either way and are not compared
                     ds = ds - {"Eq", "Ord"}
                 dmask = [1 if t in (ds or set()) else 0 for t in TRAITS]
                 mmask = [1 if t in (man or set()) else 0 for t in TRAITS]
@@ -417,7 +420,12 @@ Definition traits := [Copy; Clone; Debug; Default; Hash; PartialOrd; Ord; Partia
 Definition atraits := [ACopy; ADebug; ADefault; AHash; APartialEq].
 Definition rows : list (ty * list N * list N * list N * bool) := [%s].
 Definition ans_ok (m impl : N) : bool := (impl =? 9) || (if impl =? 3 then negb (m =? 0) else m =? impl).
-Definition opaque_rec (t : ty) : bool := match t with TRec i _ => r_opaque i | _ => false end.
+Fixpoint opaque_rec (t : ty) : bool :=
+  match t with
+  | TRec i fs => r_opaque i || (fix any (l : list ty) : bool := match l with [] => false | f :: l' => opaque_rec f || any l' end) fs
+  | TArr e _ => opaque_rec e
+  | _ => false
+  end.
 Definition mask (l : list trait) : list N := map (fun t => if mem t l then 1 else 0) traits.
 Definition dmask (t : ty) : list N :=
   map (fun tr => if mem tr (derives_of o t) && negb (opaque_rec t && match tr with Eq | Ord => true | _ => false end) then 1 else 0) traits.
@@ -476,7 +484,7 @@ Eval vm_compute in map (fun r => match r with (t, _, _, _, _) => map (fun a => c
                 if "Default" in man:
                     # every member of the hand-written Default must be zero (padding after a move is not observable in Rust: the impl's
                     # write_bytes over the whole object is checked on the text)
-                    checks = leaf_checks(env, env[n], "v")
+                    checks = leaf_checks(env, env[n], "v", frozenset(v_ for k_, v_ in mods.items() if k_ in ("block", "opaque")))
                     runs += "    { let v: %s = Default::default(); let mut nz = 0usize; %s println!(\"default %s {}\", nz); %s }\n" % (
                         n, " ".join("if !(%s) { nz += 1; }" % c_ for c_ in checks), n, ("let s = format!(\"{:?}\", v); println!(\"debug %s {}\", s.len() > 0);" % n) if "Debug" in (ds | man) else "")
                     mm = re.search(r"impl Default for %s \{.*?\n\}" % n, out, re.S)
